@@ -1,10 +1,11 @@
 """C14 — configuration of tools/check.py and text of the MANIFEST entry."""
 
 PROP = {
-    "targets": ["Props/C14.vo", "Corr/CorrC14.vo"],
-    "cone": ["Bridge/BrC14.v", "Base/NumProofs.v"],
+    "targets": ["Props/C14.vo", "Corr/CorrC14.vo", "Bridge/BrC0809.vo"],
+    "cone": ["Bridge/BrC14.v", "Base/NumProofs.v", "Bridge/BrC0809.v"],
     "harness": "c14",
-    "trusted": ["model of Go integer wrap-around / float32 rounding in coq/Base/Num.v (validated by the correspondence on every run)"],
+    "trusted": ["purity premise of the functional model (no state survives a Compile / Run call): Bridge/BrC0809.v over the regenerated write / call / package-variable inventory - a cache or other package-level state breaks it",
+                "model of Go integer wrap-around / float32 rounding in coq/Base/Num.v (validated by the correspondence on every run)"],
     "assumptions": ["int/uint are 64-bit (amd64)", "float->integer conversions out of range are implementation-defined in Go and excluded",
                     "math.Pow is not modelled (the ** operator is judged against Go's math.Pow on the implementation only)"],
     "explanation": "Theorems C14_table/C14_rule/C14_kind_predicted are re-checked against the table regenerated from vm/helpers.go and checker/types.go; the model instantiated with that table is executed on the inputs the implementation ran",
